@@ -110,6 +110,14 @@ fn add_helpers(prog: &mut Program, text: &str) {
             fields: vec![FieldDecl { name: "zf".into(), ty: Ty::Int }, FieldDecl { name: "zg".into(), ty: Ty::Str }],
         });
     }
+    // `Zqo` has members whose type is the blob `Zqp` declared *after* it (directly and as a type argument)
+    if (text.contains("Zqo") || text.contains("Zqd")) && !prog.blobs.iter().any(|b| b.name == "Zqo") {
+        // (`Zqo` mentions it only as a type argument, `Zqd` only directly)
+        let at = prog.blobs.len();
+        prog.blobs.push(BlobDecl { name: "Zqo".into(), fields: vec![FieldDecl { name: "zi".into(), ty: Ty::Maybe(Box::new(Ty::Blob(at + 2))) }] });
+        prog.blobs.push(BlobDecl { name: "Zqd".into(), fields: vec![FieldDecl { name: "zd".into(), ty: Ty::Blob(at + 2) }] });
+        prog.blobs.push(BlobDecl { name: "Zqp".into(), fields: vec![FieldDecl { name: "zx".into(), ty: Ty::Int }] });
+    }
     for r in cat::PRIMS {
         let name = cat::gfn_name(r);
         if text.contains(name) && !prog.vars.iter().any(|v| v.name == name) {
